@@ -10,6 +10,18 @@ from simkit.world import sub_rng, HarnessError
 from . import stubs
 
 
+RESULT_FIELDS = ("ml", "vl", "cl", "mean_level_l", "var_level_l", "kurtosis", "consistency_check")
+
+
+def read_results(res, order=None):
+    """the figures of a results object, read in the given order (reads must not influence each other)"""
+    out = {}
+    with np.errstate(all="ignore"):
+        for k in (order or RESULT_FIELDS):
+            out[k] = np.array(getattr(res, k), dtype=float).tolist()
+    return out
+
+
 class VerdictAbort(Exception):
     """raised by a monitor to stop a run that has already violated a property (otherwise it would not terminate)"""
     verif_passthrough = True
@@ -79,6 +91,11 @@ def generate(seed, tier="quick", label="mlmc"):
     if sc["nproc"] != 1 and r.random() < 0.15:
         # fault: a task of one of the run's map calls dies in its worker (each call hit with probability 1/k)
         sc["env"]["task_fail_one_in"] = r.choice([3, 8])
+    # history of READS of a results object: the order in which the caller looks at its figures
+    order = list(RESULT_FIELDS)
+    if r.random() < 0.5:
+        r.shuffle(order)
+    sc["read_order"] = order
     return sc
 
 
@@ -201,8 +218,7 @@ def run(wd, sc, cap=60000):
             snap["levels"].append((f, c))
         res = stats.mlmc_results
         try:
-            snap["results"] = {k: np.array(getattr(res, k), dtype=float).tolist() for k in
-                               ("ml", "vl", "cl", "mean_level_l", "var_level_l", "kurtosis")}
+            snap["results"] = read_results(res, sc.get("read_order"))
             snap["results"]["cost"] = float(res.cost)
         except Exception as e:
             snap["results_err"] = repr(e)
